@@ -32,7 +32,8 @@ FaultVecs == {[k |-> "write_fault", paras |-> <<P2(<<111, 110, 101>>, <<97>>), P
                fail_at |-> n, via |-> v] : n \in 1..12, v \in {"encoder", "writeto"}}
 \* structs with a required and an optional field through the Encoder: every value is one paragraph, "Name" always
 \* written (even empty), "Comment" only when it has text
-EncVals == {[Name |-> n, Comment |-> c] : n \in {<<>>, <<111, 110, 101>>}, c \in {<<>>, <<99>>}}
+\* ... and "Notes", tagged multiline:"true": its text starts on the line after the field name
+EncVals == {[Name |-> n, Comment |-> c, Notes |-> t] : n \in {<<>>, <<111, 110, 101>>}, c \in {<<>>, <<99>>}, t \in {<<>>, <<108, 49, LF, 108, 50>>}}
 EncVecs == {[k |-> "enc_structs", values |-> vs] : vs \in UNION {[1..n -> EncVals] : n \in 1..3}}
            \cup {[k |-> "enc_structs", values |-> vs, dup |-> TRUE] : vs \in UNION {[1..n -> EncVals] : n \in 1..2}}
 ASSUME Emit(CASE Mode = "tokdocs"  -> SetToSeq({[k |-> Kind, doc |-> d] : d \in TokDocs})
